@@ -402,3 +402,120 @@ Example C11_ex_rule_results :
   rdr_strip W_rdr <> W_rdr /\
   rdr_from_json 4 [zs "cds1"%string; zs "cds2"%string] (rdr_to_json 4 W_rdr) = Ok (Some (rdr_strip W_rdr)).
 Proof. exact rdr_wf_witness. Qed.
+
+(* ================= main level: main.run_module / analyse_record / run_detection (ModelMain.v) ================= *)
+From ASV.C11 Require Import ModelMain ProofsMain.
+
+(* one step, every input map, every module behaviour (also one that breaks the interface): when run_module
+   returns, the module's entry is never a raw saved dict - neither a declined nor any other one *)
+Theorem C11_main_no_raw_step : forall b m m' tr, run_module b m = Ok (m', tr) ->
+  forall i t, ~ In (mb_name b, MRaw i t) m'.
+Proof. exact step_no_raw. Qed.
+Print Assumptions C11_main_no_raw_step.
+
+(* ... and the entries of all other modules are exactly as they were *)
+Theorem C11_main_step_frame : forall b m m' tr k e, run_module b m = Ok (m', tr) -> k <> mb_name b ->
+  (In (k, e) m' <-> In (k, e) m).
+Proof. exact step_frame. Qed.
+Print Assumptions C11_main_step_frame.
+
+(* the invariant over ANY sequence of modules (analyse_record), for every input map: no raw entry of a
+   visited module survives, whatever happened in between (induction over the module list) *)
+Theorem C11_main_no_raw_sequence : forall bs m m' tr, analyse_record bs m = Ok (m', tr) ->
+  forall b, In b bs -> forall i t, ~ In (mb_name b, MRaw i t) m'.
+Proof. exact (seq_no_raw run_module good_run_module). Qed.
+Print Assumptions C11_main_no_raw_sequence.
+
+(* the same for the module loops of run_detection *)
+Theorem C11_main_no_raw_detection : forall bs m m' tr, run_detection bs m = Ok (m', tr) ->
+  forall b, In b bs -> forall i t, ~ In (mb_name b, MRaw i t) m'.
+Proof. exact (seq_no_raw detection_step good_detection_step). Qed.
+Print Assumptions C11_main_no_raw_detection.
+
+(* saved results that the module declines are DISCARDED when the module does not run: nothing is left *)
+Theorem C11_main_declined_discarded : forall b m m' tr, mb_regen b = RNone -> ran b = false ->
+  run_module b m = Ok (m', tr) -> forall e, ~ In (mb_name b, e) m'.
+Proof. exact step_declined_discarded. Qed.
+Print Assumptions C11_main_declined_discarded.
+
+(* saved results that the module accepts are kept when the module does not run - for results objects
+   that are truthy *)
+Theorem C11_main_accepted_kept_partial : forall b m id t0 i, mget (mb_name b) m = Some (MRaw id t0) ->
+  mb_regen b = RRes i true -> ran b = false ->
+  exists tr, run_module b m = Ok (mremove (mb_name b) m ++ [(mb_name b, MRes i true)], tr).
+Proof. exact step_accepted_kept. Qed.
+Print Assumptions C11_main_accepted_kept_partial.
+
+(* the full clause is false: accepted results whose truth value is False (TTAResults without codons:
+   __len__ == 0) are dropped by `if results:` (finding FC11a) *)
+Theorem C11_main_accepted_kept_refuted :
+  exists b m m' tr id t0 i, mget (mb_name b) m = Some (MRaw id t0) /\ mb_regen b = RRes i false /\
+    ran b = false /\ beh_contract b = true /\ run_module b m = Ok (m', tr) /\ forall e, ~ In (mb_name b, e) m'.
+Proof. exact accepted_falsy_dropped. Qed.
+Print Assumptions C11_main_accepted_kept_refuted.
+
+(* when the module runs and returns new results, exactly those are in hand, at the end of the dict *)
+Theorem C11_main_ran_new : forall b m m' tr i t, ran b = true -> mb_run b = UNew i t ->
+  run_module b m = Ok (m', tr) -> m' = mremove (mb_name b) m ++ [(mb_name b, MRes i t)].
+Proof. exact step_ran_new. Qed.
+Print Assumptions C11_main_ran_new.
+
+(* the later stage: if every saved entry belongs to a visited module and the modules honour their
+   interface, every entry of the final map is a results object and dump_records writes it out *)
+Theorem C11_main_dump_ok : forall bs m m' tr, analyse_record bs m = Ok (m', tr) ->
+  forallb beh_contract bs = true -> (forall k, In k (keys_of m) -> In k (names_of bs)) -> dump_ok m' = true.
+Proof. exact (seq_dump_ok run_module good_run_module). Qed.
+Print Assumptions C11_main_dump_ok.
+
+(* without that hypothesis the statement is false: the saved results of a module that is not visited
+   (skipped record, module that no longer exists) stay raw and dump_records raises TypeError *)
+Theorem C11_main_dump_ok_unvisited_refuted :
+  exists bs m m' tr, bs <> [] /\ forallb beh_contract bs = true /\
+    analyse_record bs m = Ok (m', tr) /\ dump_ok m' = false.
+Proof. exact unvisited_raw_survives. Qed.
+Print Assumptions C11_main_dump_ok_unvisited_refuted.
+
+(* run_detection's `assert isinstance(results, ModuleResults)` never trips on what run_module leaves
+   when the modules honour their interface: the detection loops go through exactly like analyse_record *)
+Theorem C11_main_detection_as_analysis : forall bs m m' tr, forallb beh_contract bs = true ->
+  analyse_record bs m = Ok (m', tr) -> exists tr', run_detection bs m = Ok (m', tr').
+Proof. exact detection_as_analysis. Qed.
+Print Assumptions C11_main_detection_as_analysis.
+
+(* non-vacuity: a reusing run over three modules - accepted and kept, declined and discarded, declined and rerun *)
+Example C11_ex_main_sequence :
+  analyse_record [mkBeh 1 (RRes 50 true) false false (UNew 60 true);
+                  mkBeh 2 RNone false true (UNew 61 true);
+                  mkBeh 3 RNone true true (UNew 62 true)]
+                 [(1, MRaw 41 true); (2, MRaw 42 true); (3, MRaw 43 true)]
+  = Ok ([(1, MRes 50 true); (3, MRes 62 true)], [1; 1; 41; 1; 2; 42; 1; 3; 43; 2; 3; -1; 3; 3]) /\
+  spec_final [mkBeh 1 (RRes 50 true) false false (UNew 60 true); mkBeh 2 RNone false true (UNew 61 true);
+              mkBeh 3 RNone true true (UNew 62 true)]
+             [(1, MRaw 41 true); (2, MRaw 42 true); (3, MRaw 43 true)]
+             [(1, MRes 50 true); (3, MRes 62 true)] true = true /\
+  (* what a run that keeps the declined dict in place (module_results.get instead of pop) would leave is rejected *)
+  spec_final [mkBeh 2 RNone false true (UNew 61 true)] [(2, MRaw 42 true)] [(2, MRaw 42 true)] false = false.
+Proof. repeat split; vm_compute; reflexivity. Qed.
+
+(* the decidable specification used at run time (fn 19) is met by the model itself: under the guard (the entry
+   of every visited module saved JSON or absent, modules visited once, honouring their interface and not
+   raising, no accepted falsy results left unrun) the run does not die ... *)
+Theorem C11_main_total_under_guard : forall mode bs m, guard bs m = true ->
+  exists m' tr, pipeline mode bs m = Ok (m', tr).
+Proof. exact pipeline_total. Qed.
+Print Assumptions C11_main_total_under_guard.
+
+(* ... and its final map satisfies the specification: every visited module's entry is exactly the expected
+   results object or nothing, other entries are untouched, nothing is invented, and the map can be
+   written out when every saved entry was visited (analyse_record and run_detection alike) *)
+Theorem C11_main_model_meets_spec : forall mode bs m m' tr, guard bs m = true ->
+  pipeline mode bs m = Ok (m', tr) -> spec_final bs m m' (dump_ok m') = true.
+Proof. exact pipeline_meets_spec. Qed.
+Print Assumptions C11_main_model_meets_spec.
+
+Example C11_ex_main_guard :
+  guard [mkBeh 1 (RRes 50 true) false false (UNew 60 true); mkBeh 2 RNone false true (UNew 61 true);
+         mkBeh 3 RNone true true (UNew 62 true)]
+        [(1, MRaw 41 true); (2, MRaw 42 true); (3, MRaw 43 true)] = true /\
+  guard [mkBeh 1 (RRes 50 false) false false (UNew 60 true)] [(1, MRaw 41 true)] = false.
+Proof. split; vm_compute; reflexivity. Qed.
